@@ -95,7 +95,7 @@ THEOREMS = [
     ('c01_model_check_spec_check',
      'forall c : C01.Corr.case, C01.Corr.model_check c = true -> C01.Corr.spec_check c = true'),
 ]
-RULE = ("histories on 21 item types; the first 11 (Min, Max, Sum, MinAdd, MaxAdd, SumAdd over i64, Combinator<MinAdd,MaxAdd>, "
+RULE = ("histories on 21 item types (plus 9 built-in items x 14 primitive element types, see (h)); the first 11 (Min, Max, Sum, MinAdd, MaxAdd, SumAdd over i64, Combinator<MinAdd,MaxAdd>, "
         "Combinator<Combinator<MinAdd,MaxAdd>,SumAdd>, a user Concat item with non-commutative merge and Assign|Append "
         "modifiers, a user affine-tag item mod 998244353, a user bit-flip item whose modifier type is the zero-sized () "
         "although it is lazy): sizes 1-40 (mostly <= 17 and 15,16,17,31,32,33), 1-60 operations, "
@@ -127,16 +127,35 @@ RULE = ("histories on 21 item types; the first 11 (Min, Max, Sum, MinAdd, MaxAdd
         "queries after it must not notice; executor self-checks that make the observation unreadable when they fail: after "
         "every debug() each range is asked again and compared with the left fold of merge over the single-element answers "
         "(stored inner nodes = query-time merges, for any element type), Concat::push verifies that its two arguments are its "
-        "left and right child in this order, Concat overrides update")
+        "left and right child in this order, Concat overrides update; "
+        "(h) the width family - behaviour the items inherit from the sibling crate rlib_num_traits through trait impls "
+        "selected by the element type (MinMax::{MIN, MAX} = the Default of Min / Max / MinAdd / MaxAdd, ZeroOne::ONE = the len of a "
+        "fresh SumAdd leaf): a macro table in the executor instantiates Min, Max, Sum, MinAdd, MaxAdd, SumAdd, "
+        "Combinator<MinAdd,MaxAdd>, Combinator<Combinator<MinAdd,MaxAdd>,SumAdd>, Combinator<Min,Combinator<Max,Sum>> over each of "
+        "i8, i16, i32, i64, i128, isize, u8, u16, u32, u64, u128, usize, f32, f64 (kinds w.<type>.<kind>, built through new and "
+        "From alternately); a history whose every intermediate number fits the type (bound computed by the generator) must print "
+        "the observation line of the i64 kind, so all copies share one Coq term: a fixed grid (every item x every type, every run: "
+        "tagged and weighted leaves, range adds, queries, both searches, all three constructors, debug(); a twin with negative "
+        "numbers on the signed types and floats; scaled by 2^70 on i128 / u128) plus random histories in three magnitudes (values "
+        "0..3 / -3..3 on sizes 1-6 for the 8-bit types, the ordinary ranges for 16 bits and up, 2^64..2^100 on i128 / u128 only); "
+        "at every debug() the executor also compares, with std's values, ZeroOne::{ZERO, ONE}, MinMax::{MIN, MAX} and Default of "
+        "the element type as the items see them, every field of Default::default() of the item (componentwise for the "
+        "Combinators) and of new(1) / from(1) (the len of a fresh SumAdd leaf included); a difference makes the observation "
+        "unreadable")
 TRUSTED = ["executor harness/crates/c01 (drives rlib_segtree::Segtree with the listed item types, defines the three user items "
            "and the element types Keyed and Cat, "
            "prints every returned item with all its fields, the debug() string and the arguments each search closure received; "
-           "its self-checks only ever turn an observation into an unreadable one)",
+           "its self-checks - the comparison of the constants of rlib_num_traits with std's included - only ever turn an "
+           "observation into an unreadable one)",
            "checks/c01.py (history generator, Coq term printer, parser of the derived-Debug rendering: the rendering is "
            "re-generated from the parsed numbers and compared with the string the implementation produced)"]
 ASSUMPTIONS = ["i64 values are modelled as unbounded Z: generated values keep every intermediate below 2^40, or sit next to one end "
                "of i64 with all modifiers pointing away from it (Min / Max, which do no arithmetic, see both ends); MinAdd<i32> and "
                "SumAdd<u64> are compared with the same Z model on small values, Min<u64> / Max<u64> on values shifted by 2^63",
+               "the width family (every built-in item over i8 ... u128, isize, usize, f32, f64) is compared with the same Z model on "
+               "histories whose intermediate numbers all fit the type (for f32 / f64: are integers the type holds exactly): the "
+               "bound is computed by the generator (sum of all |values| and |tags| plus |modifier| * total length); overflow and "
+               "rounding behaviour of the narrow types is outside the check; on i128 / u128 magnitudes up to 2^107 occur",
                "f64 elements are the two zeros and integral values below 2^50, modelled as (value, sign bit of a zero); NaN and "
                "infinities are not generated",
                "a search interrupted by a panicking predicate is not modelled itself: the executor repeats it, and the model "
@@ -170,6 +189,27 @@ EXE_OF = {"minadd32": "minadd", "sumaddu64": "sumadd", "minu64": "min", "maxu64"
 # Min<u64> / Max<u64>: the executor maps the i64 input x to the u64 x + 2^63 (order isomorphism; u64::MAX <-> i64::MAX,
 # 0 <-> i64::MIN: the Default values correspond) and prints items back the same way; debug() shows the raw u64
 SHIFTED_EXE = {"minu64": 2 ** 63, "maxu64": 2 ** 63}
+# The width family: executor kind "w.<type>.<kind>" = the built-in item <kind> over the primitive <type> (every type for
+# which rlib_num_traits implements MinMax / ZeroOne).  Same tokens, same encodings, hence the same observation line and the
+# same Coq term as the i64 kind on a history whose intermediate values all fit the type: (lowest, highest) value the type
+# represents exactly (f32 / f64: the integers it holds without rounding).
+WKINDS = ["min", "max", "sum", "minadd", "maxadd", "sumadd", "comb2", "comb3", "combunit"]
+WTYPES = [("i8", -2 ** 7, 2 ** 7 - 1), ("u8", 0, 2 ** 8 - 1), ("i16", -2 ** 15, 2 ** 15 - 1), ("u16", 0, 2 ** 16 - 1),
+          ("i32", -2 ** 31, 2 ** 31 - 1), ("u32", 0, 2 ** 32 - 1), ("i64", -2 ** 63, 2 ** 63 - 1), ("u64", 0, 2 ** 64 - 1),
+          ("isize", -2 ** 63, 2 ** 63 - 1), ("usize", 0, 2 ** 64 - 1), ("i128", -2 ** 127, 2 ** 127 - 1),
+          ("u128", 0, 2 ** 128 - 1), ("f32", -2 ** 24, 2 ** 24), ("f64", -2 ** 53, 2 ** 53)]
+WFLOAT = ("f32", "f64")
+BIG_LIM = 2 ** 126
+
+
+def width_exe(exe):
+    """(type, kind) of a width executor kind, None for the others"""
+    if exe and exe.startswith("w."):
+        _w, ty, kind = exe.split(".")
+        if kind not in WKINDS or ty not in [t[0] for t in WTYPES]:
+            raise ValueError("bad width executor kind %r" % exe)
+        return ty, kind
+    return None
 
 
 class BadObs(Exception):
@@ -393,7 +433,8 @@ def tok_op(kind, o):
 
 def harness_line(c):
     exe = c.get("exe", c["kind"])
-    if exe != c["kind"] and EXE_OF.get(exe) != c["kind"]:
+    w = width_exe(exe)
+    if (w[1] if w else EXE_OF.get(exe, exe)) != c["kind"]:
         raise ValueError("bad executor kind %r for %s" % (exe, c["kind"]))
     return " ".join([exe] + [tok_op(c["kind"], o) for o in c["ops"]])
 
@@ -423,8 +464,8 @@ def parse_enc(kind, s):
     if kind == "combcat":
         a, _, b = s.partition(",")
         return "(%s, %s)" % (parse_enc("concat", a), parse_enc("concat", b))
-    if kind in F64_KINDS and s == "X":
-        raise BadObs("a value that is neither integral nor a zero")
+    if "X" in s.split(","):
+        raise BadObs("a float that is neither a small integral value nor a zero")
     f = [int(x) for x in s.split(",")]
     if len(f) != ARITY[kind]:
         raise ValueError("bad item %r for %s" % (s, kind))
@@ -457,11 +498,15 @@ def render_debug(kind, f):
     raise ValueError(kind)
 
 
-def parse_debug(kind, s, shift=0):
+def parse_debug(kind, s, shift=0, flt=False):
     """debug() string -> list of Coq item terms; None if the rendering is not the expected one
-    (shift: the executor's element values are the model's plus shift, see SHIFTED_EXE)"""
+    (shift: the executor's element values are the model's plus shift, see SHIFTED_EXE; flt: the width family over f32 /
+    f64, whose integral values are rendered `3.0` - a `-0.0` stays unreadable)"""
     if not (s.startswith("[") and s.endswith("]")):
         return None
+    if flt:
+        # anything else (3.5, 1e16, -0.0 -> -0) fails the re-rendering comparison below
+        s = re.sub(r"(?<![\d.])(-?\d+)\.0\b", r"\1", s)
     if kind in ("concat", "affine", "flip"):     # their Debug impl (in the executor) prints the item encoding
         body = s[1:-1]
         try:
@@ -503,7 +548,7 @@ def parse_debug(kind, s, shift=0):
     return [item_from_fields(kind, [x - shift for x in g]) for g in groups]
 
 
-def coq_out(kind, chunk, shift=0):
+def coq_out(kind, chunk, shift=0, flt=False):
     if chunk == "u":
         return "OUnit"
     if chunk == "p":
@@ -515,7 +560,7 @@ def coq_out(kind, chunk, shift=0):
         except BadObs:
             return "OPanic"
     if tag == "d":
-        items = parse_debug(kind, rest, shift)
+        items = parse_debug(kind, rest, shift, flt)
         if items is None:
             return "OPanic"          # unexpected rendering: cannot agree with the model's OItems
         return "OItems [%s]" % "; ".join(items)
@@ -535,7 +580,9 @@ def coq_term(c, obs, profile):
         outs = []
     else:
         shift = SHIFTED_EXE.get(c.get("exe"), 0)
-        outs = [coq_out(kind, ch, shift) for ch in obs.split("\t")] if obs != "" else []
+        w = width_exe(c.get("exe"))
+        flt = bool(w) and w[0] in WFLOAT
+        outs = [coq_out(kind, ch, shift, flt) for ch in obs.split("\t")] if obs != "" else []
     return "(%s ([%s], [%s]))" % (CTOR[kind], "; ".join(coq_op(kind, o) for o in c["ops"]), "; ".join(outs))
 
 
@@ -599,6 +646,14 @@ def rand_str(rng, lo, hi):
 EXTREMES = [I64_MIN, I64_MIN + 1, I64_MAX - 1, I64_MAX, I64_MIN, I64_MAX, 0, -1, 1]
 
 
+TINY_STYLES = ("tiny", "tinys")
+BIG_STYLES = ("bigpos", "bigneg", "bigany")
+
+
+def big_sign(rng, style):
+    return 1 if style == "bigpos" else -1 if style == "bigneg" else rng.choice([1, -1])
+
+
 def pick_value(rng, kind, style):
     if kind in STR_KINDS:
         return rand_str(rng, 0, 3)
@@ -614,6 +669,10 @@ def pick_value(rng, kind, style):
         # few distinct keys: the children of inner nodes tie all the time; the id tells tied elements apart
         lo, hi = (0, 2) if style == "nonneg" else (-2, 3)
         return "%d/%d" % (rng.range(lo, hi), rng.range(0, 99))
+    if style in TINY_STYLES:    # the width family: everything fits 8 bits
+        return rng.range(0 if style == "tiny" else -3, 3)
+    if style in BIG_STYLES:     # i128 / u128: magnitudes between 2^96 and 2^100
+        return big_sign(rng, style) * rng.range(2 ** 96, 2 ** 100)
     if style == "hi":           # MinAdd / MaxAdd / comb2 next to i64::MAX; every modifier is <= 0, nothing overflows
         return I64_MAX - rng.choice([0, 0, 0, 1, 1, rng.range(2, 60)])
     if style == "lo":           # ... next to i64::MIN with modifiers >= 0
@@ -631,6 +690,10 @@ def pick_md(rng, kind, style):
         return 1
     if kind in KEYED_KINDS:
         return rng.choice([-2, -1, 1, 2])
+    if style in TINY_STYLES:
+        return rng.choice([1, 2] if style == "tiny" else [-2, -1, 1, 2])
+    if style in BIG_STYLES:     # tags and modifiers between 2^64 and 2^80: the values keep their sign
+        return (1 if style == "bigpos" else rng.choice([1, -1])) * rng.range(2 ** 64, 2 ** 80)
     if style == "hi":
         return -rng.range(1, 20)
     if style in ("nonneg", "lo"):
@@ -663,6 +726,10 @@ def pick_mod(rng, kind, style):
         if k < 6:
             return [1, c]                      # add
         return [rng.range(0, 5) if small else rng.range(0, PM - 1), c]
+    if style in TINY_STYLES:
+        return rng.range(0 if style == "tiny" else -2, 2)
+    if style in BIG_STYLES:
+        return rng.choice([0, 1, pick_md(rng, kind, style), pick_md(rng, kind, style)])
     if style == "hi":
         return -rng.range(0, 20)
     if style in ("nonneg", "lo"):
@@ -689,7 +756,13 @@ class Plain:
 
     def __init__(self, kind):
         self.kind, self.a, self.w = kind, None, None
+        self.lim = (I64_MIN, I64_MAX)      # thresholds are clamped to these (the big styles of i128 / u128 widen them)
         self.subs = [(Plain(k), f) for k, _path, f in SUBS.get(kind, [])]
+
+    def widen(self, lim):
+        self.lim = lim
+        for sub, _f in self.subs:
+            sub.widen(lim)
 
     def elem(self, v):
         return v % PM if self.kind == "affine" else val_of(v)     # a lazy tag carried by a leaf is not part of its value
@@ -764,9 +837,9 @@ def pick_pred(rng, kind, plain, lo, hi, rev):
     d = rng.choice([0, 0, 0, 1, -1, 2, -3])
     wrong = q == 2            # deliberately the non-monotone direction now and then (exercises the model only)
     if kind in ("min", "minadd"):
-        return ["ge" if wrong else "le", max(I64_MIN, min(I64_MAX, v + d))]
+        return ["ge" if wrong else "le", max(plain.lim[0], min(plain.lim[1], v + d))]
     if kind in ("max", "maxadd"):
-        return ["le" if wrong else "ge", max(I64_MIN, min(I64_MAX, v + d))]
+        return ["le" if wrong else "ge", max(plain.lim[0], min(plain.lim[1], v + d))]
     if kind == "sum":
         return ["le" if wrong else "ge", v + d]
     if kind == "sumadd":
@@ -816,8 +889,10 @@ def pick_pred(rng, kind, plain, lo, hi, rev):
     raise ValueError(kind)
 
 
-def gen_history(rng, tier, weights, max_ops, kinds=KINDS, ppanic=12):
-    """ppanic: one search in ppanic is run with a predicate that panics on one of its first calls before the real run"""
+def gen_history(rng, tier, weights, max_ops, kinds=KINDS, ppanic=12, force_style=None, sizes=None):
+    """ppanic: one search in ppanic is run with a predicate that panics on one of its first calls before the real run;
+    force_style / sizes: the width family (values of the given style on the plain i64 kind, sizes drawn by sizes(rng))"""
+    pick_size = (lambda r, _t: sizes(r)) if sizes else pick_n
     kind = rng.choice(kinds)
     style = "nonneg" if rng.chance(1, 2) else "any"
     exe = None
@@ -832,8 +907,12 @@ def gen_history(rng, tier, weights, max_ops, kinds=KINDS, ppanic=12):
         exe = "minadd32"                        # MinAdd<i32>
     if kind == "sumadd" and style == "nonneg" and rng.chance(1, 4):
         exe = "sumaddu64"                       # SumAdd<u64>
-    n = pick_n(rng, tier)
+    if force_style:
+        style, exe = force_style, None
+    n = pick_size(rng, tier)
     plain = Plain(kind)
+    if style in BIG_STYLES:
+        plain.widen((-BIG_LIM, BIG_LIM))
     ops = []
     # one history in four on a lazy built-in / Flip kind uses input items that carry a lazy tag of their own
     tagged = rng.choice([0, 0, 0, 35]) if kind in MD_KINDS else 0
@@ -872,7 +951,7 @@ def gen_history(rng, tier, weights, max_ops, kinds=KINDS, ppanic=12):
             ops.append({"op": "dbg"})
             continue
         if q < 6:
-            n = pick_n(rng, tier)
+            n = pick_size(rng, tier)
             construct()
             nodes = nodes_of(n)
             continue
@@ -1216,6 +1295,130 @@ def gen_big(rng, tier, n=None, kind=None):
     return {"kind": kind, "ops": ops}
 
 
+def hist_bound(ops):
+    """(a bound on the magnitude of every number the implementation computes on this history - element values, range
+    sums, lazy tags, modifier * len, lengths - , no negative number occurs at all)"""
+    acc = tot = peak = 0
+    nonneg = True
+    for o in ops:
+        t = o["op"]
+        its = [o["v"]] * max(o["n"], 1) if t == "new" else o["xs"] if t in ("slice", "iter") else [o["v"]] if t == "set" else []
+        if t in ("new", "slice", "iter"):
+            tot = 0
+        for v in its:
+            f = [val_of(v), v[1] if isinstance(v, list) else 0, len_of(v)]
+            nonneg = nonneg and min(f) >= 0
+            acc += abs(f[0]) + abs(f[1])
+            tot += abs(f[2])
+        if t == "mod":
+            nonneg = nonneg and o["m"] >= 0
+            acc += abs(o["m"]) * max(tot, 1)
+        peak = max(peak, acc, tot)
+    return peak, nonneg
+
+
+def width_types(ops):
+    """the primitive types that hold every number of this history exactly"""
+    bound, nonneg = hist_bound(ops)
+    return [ty for ty, lo, hi in WTYPES if bound <= hi and (lo < 0 or nonneg)]
+
+
+def on_types(c, types):
+    return [dict(c, exe="w.%s.%s" % (ty, c["kind"])) for ty in types]
+
+
+def gen_width(rng, tier, weights, ppanic=12):
+    """One history on a built-in item, run on several primitive element types at once (the executor kinds w.<type>.<kind>):
+    they must all print the observation line of the i64 kind, so the copies share one Coq term.  Three magnitudes: tiny
+    (sizes 1-6, values 0..3 or -3..3, few operations: fits i8 / u8), the ordinary ranges of the i64 histories (16 bits and
+    up, f32, f64) and - on i128 / u128 only - magnitudes between 2^64 and 2^100."""
+    q = rng.below(10)
+    if q < 5:
+        style = rng.choice(["tiny", "tiny", "tinys"])
+        c = gen_history(rng, tier, weights, 7, WKINDS, ppanic, style, lambda r: r.choice([1, 2, 2, 3, 3, 4, 4, 5, 6]))
+    elif q < 8:
+        c = gen_history(rng, tier, weights, 25, WKINDS, ppanic, rng.choice(["nonneg", "any"]), lambda r: pick_small_n(r, tier))
+    else:
+        ty, kind, style = rng.choice(BIG_WIDTH)
+        c = gen_history(rng, tier, weights, 25, [kind], ppanic, style, lambda r: pick_small_n(r, tier))
+        return on_types(c, [ty] if hist_bound(c["ops"])[0] <= BIG_LIM else [])
+    types = width_types(c["ops"])
+    if len(types) > 6:        # the narrowest signed and unsigned type that fit, and four more
+        keep = [t for t in types if t[0] == "i"][:1] + [t for t in types if t[0] == "u"][:1]
+        rest = [t for t in types if t not in keep]
+        rng.shuffle(rest)
+        types = keep + rest[:4]
+    return on_types(c, types)
+
+
+# Min / MinAdd: the model's Default is i64::MAX, so the big values are negative; Max / MaxAdd: positive; no Combinator of both
+BIG_WIDTH = [("i128", "min", "bigneg"), ("i128", "minadd", "bigneg"), ("i128", "max", "bigpos"), ("i128", "maxadd", "bigpos"),
+             ("i128", "sum", "bigany"), ("i128", "sumadd", "bigany"), ("i128", "sumadd", "bigany"),
+             ("u128", "max", "bigpos"), ("u128", "maxadd", "bigpos"), ("u128", "sum", "bigpos"), ("u128", "sumadd", "bigpos"),
+             ("u128", "sumadd", "bigpos")]
+
+
+def width_cases(rng, tier, count, weights, ppanic=12):
+    out = []
+    for _ in range(count):
+        out.extend(gen_width(rng, tier, weights, ppanic))
+    return out
+
+
+def grid_history(kind, neg, big=0):
+    """a fixed history for the grid: tagged and weighted leaves, range adds, queries, both searches, debug(), all three
+    constructors; values 0..5 (neg: -5..5; big: everything multiplied by big)"""
+    sg = -1 if neg else 1
+    md, ln = kind in MD_KINDS, kind in LEN_KINDS
+    b = big or 1
+
+    def it(v, tag=0, w=None):
+        v, tag = v * b, tag * b
+        return [v, tag, w] if (ln and w is not None) else [v, tag] if (md and tag) else v
+
+    mod = (lambda m: 0) if kind in UNIT_MOD_KINDS else (lambda m: m * b)
+    lo, hi = {"min": (["le", 1 * b], ["le", -2 * b]), "max": (["ge", 4 * b], ["ge", 3 * b]), "sum": (["ge", 5 * b], ["ge", 2 * b]),
+              "minadd": (["le", 1 * b], ["le", -2 * b]), "maxadd": (["ge", 4 * b], ["ge", 3 * b]),
+              "sumadd": (["fst", ["ge", 5 * b]], ["snd", ["ge", 3]]),
+              "comb2": (["fst", ["le", 1]], ["snd", ["ge", 3]]),
+              "comb3": (["snd", ["fst", ["ge", 6]]], ["fst", ["fst", ["le", -2]]]),
+              "combunit": (["snd", ["snd", ["ge", 5]]], ["fst", ["le", -2]])}[kind]
+    return {"kind": kind, "ops": [
+        {"op": "slice", "xs": [it(2), it(3, 1), it(1 * sg, 0, 2), it(0), it(2 * sg, 2, 0)]},
+        {"op": "mod", "l": 1, "r": 3, "m": mod(1)},
+        {"op": "ask", "l": 0, "r": 4}, {"op": "ask", "l": 1, "r": 2}, {"op": "ask", "l": 2, "r": 2},
+        {"op": "lb", "l": 0, "p": lo}, {"op": "lbr", "r": 4, "p": hi},
+        {"op": "set", "i": 2, "v": it(4, 1 * sg)},
+        {"op": "mod", "l": 0, "r": 4, "m": mod(2 * sg)},
+        {"op": "ask", "l": 0, "r": 4}, {"op": "lb", "l": 1, "p": hi}, {"op": "lbr", "r": 3, "p": lo}, {"op": "dbg"},
+        {"op": "new", "n": 3, "v": it(1, 1)}, {"op": "mod", "l": 0, "r": 1, "m": mod(1)}, {"op": "ask", "l": 0, "r": 2},
+        {"op": "lb", "l": 0, "p": hi},
+        {"op": "iter", "xs": [it(1 * sg), it(2)]}, {"op": "mod", "l": 1, "r": 1, "m": mod(1 * sg)}, {"op": "ask", "l": 0, "r": 1},
+        {"op": "lbr", "r": 1, "p": lo}, {"op": "dbg"}]}
+
+
+def width_grid():
+    """EVERY built-in item over EVERY primitive type, every run, whatever the seed: one fixed history without negative
+    numbers on all 14 types, its twin with negative values and modifiers on the signed types and the floats, and on
+    i128 / u128 the same two scaled by 2^70 (Sum / SumAdd / Max / MaxAdd; i128 also Min / MinAdd on the negative twin).
+    Each debug() also runs the executor's comparison of the constants the items take from rlib_num_traits with std's."""
+    out = []
+    for kind in WKINDS:
+        for neg in (False, True):
+            c = grid_history(kind, neg)
+            types = width_types(c["ops"])
+            if len(types) != (8 if neg else 14):
+                raise ValueError("the grid history of %s no longer fits every type: %r" % (kind, types))
+            out.extend(on_types(c, types))
+    for ty, kind, style in sorted(set(BIG_WIDTH)):
+        neg = style != "bigpos"
+        if style == "bigneg":
+            continue            # the grid values are not all negative; the random family covers Min / MinAdd<i128>
+        c = grid_history(kind, neg, 2 ** 70)
+        out.extend(on_types(c, [ty]))
+    return out
+
+
 def interleave(lists):
     """one list in which every input list is spread evenly (the driver samples prefixes and strides of it)"""
     keyed = []
@@ -1237,7 +1440,9 @@ def generate(rng, tier):
     count, nflip, ntag, nnew, nties = (1400, 120, 200, 260, 130) if tier == "quick" else (30000, 3000, 5000, 9000, 4000)
     r1, r2, r3 = rng.fork("hist"), rng.fork("flip"), rng.fork("tagged")
     r4, r5, r6 = rng.fork("newkinds"), rng.fork("ties"), rng.fork("big")
-    return interleave([[gen_history(r1, tier, (2, 3, 3, 2), 60) for _ in range(count)],
+    r7 = rng.fork("width")
+    return interleave([width_grid(), width_cases(r7, tier, 150 if tier == "quick" else 4000, (2, 4, 3, 2)),
+                       [gen_history(r1, tier, (2, 3, 3, 2), 60) for _ in range(count)],
                        [gen_flip(r2, tier, 4) for _ in range(nflip)],
                        [gen_tagged(r3, tier, 3) for _ in range(ntag)],
                        [gen_history(r4, tier, (2, 3, 3, 2), 40, NEW_KINDS) for _ in range(nnew)],
@@ -1302,6 +1507,9 @@ def classify(c, obs):
     n = size_of(c)
     cls = "n=1" if n == 1 else ("n<=8" if n <= 8 else ("n<=17" if n <= 17 else "n>17"))
     cls = "n>=63" if n >= 63 else cls
+    w = width_exe(c.get("exe"))
+    if w:
+        return "%s@%s" % (w[1], w[0])
     return "%s%s/%s%s" % (c.get("exe", c["kind"]), "+tag" if has_tagged(c) else "", cls, "/pow2" if n & (n - 1) == 0 else "")
 
 
@@ -1376,6 +1584,10 @@ def shrink(c):
             out.append(dict(c, ops=ops[:i] + [{k_: v_ for k_, v_ in o.items() if k_ != "raw"}] + ops[i + 1:]))
         if o["op"] == "mod" and kind not in UNIT_MOD_KINDS + ("concat", "combcat", "affine") and o["m"] not in (0, 1):
             out.append(dict(c, ops=ops[:i] + [dict(o, m=1)] + ops[i + 1:]))
+    w = width_exe(c.get("exe"))
+    if w:
+        # stay on the element type (the i64 kind may not even hold the numbers) and inside what the type holds exactly
+        out = [x for x in out if x.get("exe") == c["exe"] and w[0] in width_types(x["ops"])]
     return out
 
 
@@ -1397,11 +1609,16 @@ MANIFEST = {
             "histories for 21 item types - including constructions from items that carry a lazy tag of their own (fill value of "
             "new, first element of from_slice), flips left pending on inner nodes, element types with distinguishable ties and "
             "non-commutative +, weighted SumAdd leaves, i64 extremes, new_raw, empty constructions, reversed ranges, trees of up "
-            "to 4097 elements, searches interrupted by a panicking predicate - and Coq checks model = implementation "
+            "to 4097 elements, searches interrupted by a panicking predicate - and, against the same Coq terms as the i64 kinds, "
+            "every built-in item (and three Combinator nestings) over each of the 14 primitive number types for which the sibling "
+            "crate rlib_num_traits provides MinMax / ZeroOne (i8 ... i128, isize, u8 ... u128, usize, f32, f64; a fixed item x type "
+            "grid every run, values above 2^64 on i128 / u128), where the executor also compares the constants the items take from "
+            "that crate (Default values, the length of a fresh SumAdd leaf) with std's - and Coq checks model = implementation "
             "(all fields, lazy tags included) and implementation |= plain-array specification on every history.",
     "level_note": "Trusted: Coq kernel + vm_compute; the Rust executor (which also defines the three user items and the element types "
                   "Keyed and Cat, and runs the fold / push-order self-checks) and the Python "
-                  "printer/parsers; i64 modelled as unbounded Z (generated values stay below 2^40); the model decides leaf-ness by "
+                  "printer/parsers; i64 modelled as unbounded Z (generated values stay below 2^40; the narrower and the float "
+                  "element types only see histories whose numbers they hold exactly); the model decides leaf-ness by "
                   "shape where the code tests vl == vr (proved equivalent under the invariant); lower_bound(l >= n) (unasserted "
                   "out-of-bounds panic in the crate) is outside the model; the correspondence is sampled, not exhaustive.",
     "technique": "Coq proof over Gallina model + vm_compute correspondence batches against the Rust crate",
